@@ -20,6 +20,7 @@ mod c18rp;
 mod c19;
 mod c19f;
 mod c20;
+mod hostsns;
 mod c11;
 mod c12;
 mod c13;
@@ -37,9 +38,12 @@ pub fn run(engine: &str, toks: Vec<Tok>) -> Vec<Tok> {
         "c03_is_global" => c03::is_global(toks),
         "c03_connect" => c03::connect(toks),
         "c03_v4_sweep" => c03::v4_sweep(toks),
+        "c03_connect_hosts" => hostsns::connect(toks),
+        "c10_hosts" => hostsns::session(toks),
         "bin_run" => bin::run(toks),
         "c15_front" => c15f::run(toks),
         "c15_udp_front" => c15f::udp(toks),
+        "c15_silent_front" => c15f::silent(toks),
         "c02_front" => c02f::run(toks),
         "c02_ends" => c02e::run(toks),
         "c04_eval" => c04::eval(toks),
